@@ -7,7 +7,6 @@ from __future__ import annotations
 
 import copy
 import random
-import re
 from typing import Any, Dict, List, Tuple
 
 from lib.bounded import BObl
